@@ -218,7 +218,33 @@ func Run(c *run.Ctx) {
 	}
 }
 
+// hostZones: the order of keys is a function of the keys, not of the zone the process happens to run in: date cases run
+// with time.Local set to one of these (chosen by the key set, so a replay makes the same choice); the CLI cases pass it
+// to rare as TZ.
+var hostZones = []string{"", "America/New_York", "Pacific/Auckland", "Europe/London", "Asia/Kolkata"}
+
+func hostFor(cs *Case) string {
+	if cs.Mode != "date" {
+		return ""
+	}
+	var h uint32 = 2166136261
+	for _, k := range cs.Keys {
+		for i := 0; i < len(k); i++ {
+			h = (h ^ uint32(k[i])) * 16777619
+		}
+	}
+	return hostZones[h%uint32(len(hostZones))]
+}
+
 func runCase(c *run.Ctx, cs *Case) {
+	if host := hostFor(cs); host != "" {
+		if l, err := time.LoadLocation(host); err == nil {
+			old := time.Local
+			time.Local = l
+			c.Count("date_cases_in_a_non_utc_process_zone", 1)
+			defer func() { time.Local = old }()
+		}
+	}
 	p, val, stack := run.Guard(func() {
 		switch cs.Kind {
 		case "set":
